@@ -12,6 +12,8 @@ import (
 
 var gens = map[string]func(props.Ctx) *report.Report{
 	"C20": props.C20,
+	"C01": props.C01,
+	"C02": props.C02,
 	"CALC": props.CalcAll,
 	"HIST": props.HistAll,
 }
